@@ -6,8 +6,8 @@ R3.3 the player drops nothing: every stream is stepped, a stepped stream with an
      before the next pop, an exhausted stream is the only one that leaves
 R3.4 time origin chain: corrected clock = event clock + clock offset; delta = clock - first clock;
      the delta reaches the Paraver time through emu_ev -> recorder_advance -> prv_advance
-R3.5 the intrusive heap, evaluated on every heap of up to 4 streams with clocks in {1,2,3} (insert all,
-     pop all) and on the player's pop / re-insert protocol for small stream sets: elements come out in
+R3.5 the intrusive heap, evaluated on every heap of up to 5 streams with clocks in {1,2,3} plus a fixed
+     sample of heaps of 6-8 streams (thorough: all of 6, samples of 7-9) (insert all, pop all) and on the player's pop / re-insert protocol for small stream sets: elements come out in
      non-decreasing clock order, each exactly once.  (Heaps of unbounded size are not decided.)
 """
 import itertools
@@ -39,8 +39,9 @@ def run(ctx):
              "at the first event and deltaclock = lastclock - firstclock; player_step hands (lastclock, deltaclock) "
              "to emu_ev, emu_step advances the recorder with ev->dclock, which reaches prv->time; each stream's "
              "clock offset is that of the loom whose hostname matches the table entry")
-    ctx.rule("R3.5", "bounded evaluation of heap.h through stream_cmp: all 120 insertion sequences of 1..4 streams "
-             "with clocks in {1,2,3} pop in non-decreasing clock order, each stream once; the player protocol "
+    ctx.rule("R3.5", "bounded evaluation of heap.h through stream_cmp: all 363 insertion sequences of 1..5 streams "
+             "with clocks in {1,2,3} and a fixed sample of 120 sequences of 6..8 streams (thorough tier: all 729 of 6 "
+             "and 450 of 7..9) pop in non-decreasing clock order, each stream once; the player protocol "
              "(pop, step, re-insert) on small stream sets yields the k-way merge")
 
     # ---- R3.1 ----------------------------------------------------------------------
@@ -96,6 +97,40 @@ def run(ctx):
         ctx.check(good, "R3.2", "stream_cmp:%d-vs-%d" % (ca, cb), sc.loc(),
                   "stream_cmp gives %s for last clocks %d and %d; the min-heap needs %s" %
                   (sorted(rets, key=str), ca, cb, {1: "positive", 0: "zero", -1: "negative"}[want]))
+
+    # for every pair of 64-bit clocks, not only small ones: a difference narrowed to int loses the sign once
+    # two streams are 2^31 ns apart
+    for rel, want in (("<", 1), (">", -1), ("==", 0)):
+        exs = absint.Explorer(prog, effects=eff, inline=lambda n, d: n == "stream_lastclock")
+        A = exs.sym("ca", -2 ** 62, 2 ** 62)
+        B = exs.sym("cb", -2 ** 62, 2 ** 62)
+        cons = exs.cmp_constraints(rel, 0, {"ca": 1, "cb": -1})
+        outs = exs.run(sc, [PTR("SA", HH), PTR("SB", HH)], {("SA", F("stream", "lastclock")): A,
+                                                            ("SB", F("stream", "lastclock")): B}, cons=tuple(cons))
+        good = bool(outs)
+        got = []
+        for o in outs:
+            if o.kind != "ret":
+                continue
+            r = o.ret
+            got.append(r)
+            if r is None or r[0] != "int":
+                l = to_lin(r) if r is not None else None
+                sgn = None
+                if l is not None:
+                    if exs.decide_cmp(o.cons, ">", l[0], dict(l[1])) is True:
+                        sgn = 1
+                    elif exs.decide_cmp(o.cons, "<", l[0], dict(l[1])) is True:
+                        sgn = -1
+                    elif exs.decide_cmp(o.cons, "==", l[0], dict(l[1])) is True:
+                        sgn = 0
+            else:
+                sgn = (r[1] > 0) - (r[1] < 0)
+            if sgn != want:
+                good = False
+        ctx.check(good, "R3.2", "stream_cmp:any-clocks:a-%s-b" % {"<": "lower", ">": "higher", "==": "equal"}[rel], sc.loc(),
+                  "for arbitrary 64-bit last clocks with a %s b stream_cmp returns %s; the min-heap needs a %s result "
+                  "for every such pair" % (rel, sorted(set(map(str, got))), {1: "positive", 0: "zero", -1: "negative"}[want]))
 
     # ---- R3.3 ---------------------------------------------------------------------------
     st = prog.fn("step_stream", PL)
@@ -245,18 +280,24 @@ def run(ctx):
               "recorder_advance:every-prv-gets-the-time", ra.loc(), "recorder_advance does not set every trace's time")
     pc = prog.fn("parse_clkoff_entry", "src/emu/system.c")
 
+    # four looms; the 2nd and the 4th are on the host of the table entry (one loom per process: a host with
+    # several processes has several looms, and every one of them needs the host's offset)
     def s_strcmp(ex_, st_, a, f, e):
-        same = a[0] == PTR("L2", F("loom", "hostname") + (0,)) or a[1] == PTR("L2", F("loom", "hostname") + (0,))
+        hn = [PTR(l, F("loom", "hostname") + (0,)) for l in ("L2", "L4")]
+        same = a[0] in hn or a[1] in hn
         return [(INT(0 if same else 1), {})]
-    ex = absint.Explorer(prog, effects=eff, loop_bound=5, summaries={"strcmp": s_strcmp})
-    store = {("L1", F("loom", "next")): PTR("L2"), ("L2", F("loom", "next")): NULL,
-             ("L1", F("loom", "clock_offset")): INT(0), ("L2", F("loom", "clock_offset")): INT(0),
+    ex = absint.Explorer(prog, effects=eff, loop_bound=8, summaries={"strcmp": s_strcmp})
+    store = {("L1", F("loom", "next")): PTR("L2"), ("L2", F("loom", "next")): PTR("L3"),
+             ("L3", F("loom", "next")): PTR("L4"), ("L4", F("loom", "next")): NULL,
              ("ENT", F("clkoff_entry", "median")): INT(42)}
+    for l in ("L1", "L2", "L3", "L4"):
+        store[(l, F("loom", "clock_offset"))] = INT(0)
     outs = [o for o in ex.run(pc, [PTR("L1"), PTR("ENT")], store) if o.kind == "ret" and o.ret == INT(0)]
-    ctx.check(outs and all(o.store.get(("L2", F("loom", "clock_offset"))) == INT(42) and
-                           o.store.get(("L1", F("loom", "clock_offset"))) == INT(0) for o in outs), "R3.4",
+    got = sorted({tuple(o.store.get((l, F("loom", "clock_offset"))) for l in ("L1", "L2", "L3", "L4")) for o in outs}, key=str)
+    ctx.check(outs and got == [(INT(0), INT(42), INT(0), INT(42))], "R3.4",
               "parse_clkoff_entry:offset-to-matching-hostname", pc.loc(),
-              "the table entry's offset does not go to (only) the loom whose hostname matches")
+              "with looms 2 and 4 of 4 on the entry's host, the looms' clock offsets become %s: the entry's offset must "
+              "go to every loom whose hostname matches and to no other" % (got,))
     io = prog.fn("init_offsets", "src/emu/system.c")
     sets = []
     ex = absint.Explorer(prog, effects=eff, loop_bound=4, summaries={
@@ -285,8 +326,18 @@ def run(ctx):
     def clk(store, name):
         return store[(name, F("stream", "lastclock"))][1]
     nseq = 0
-    for n in range(1, 5):
-        for keys in itertools.product((1, 2, 3), repeat=n):
+    import random
+    rnd = random.Random(20240917)
+    seqs = [keys for n in range(1, 6) for keys in itertools.product((1, 2, 3), repeat=n)]
+    if ctx.tier == "thorough":
+        seqs += list(itertools.product((1, 2, 3), repeat=6))
+        seqs += [tuple(rnd.randint(1, 5) for _ in range(n)) for n in (7, 8, 9) for _ in range(150)]
+    else:
+        # deeper heaps (three and four levels), a fixed pseudo-random sample
+        seqs += [tuple(rnd.randint(1, 4) for _ in range(n)) for n in (6, 7, 8) for _ in range(40)]
+    for keys in seqs:
+        if True:
+            n = len(keys)
             nseq += 1
             store = {("H", F("head_head", "root")): NULL, ("H", F("head_head", "size")): INT(0)}
             for i, k in enumerate(keys):
@@ -318,7 +369,9 @@ def run(ctx):
             ctx.check(bad is None, "R3.5", "heap:insert-pop:clocks=%s" % ("".join(map(str, keys))), ins.loc(),
                       "streams with last clocks %s inserted in this order: %s" % (list(keys), bad))
     # player protocol: k-way merge of small streams
-    cases = [([1, 4], [2, 3], [2]), ([1, 1, 1], [1, 1]), ([5], [1, 2, 3, 4, 6]), ([2, 2], [2, 2], [1, 3]), ([1], [1], [1], [1])]
+    cases = [([1, 4], [2, 3], [2]), ([1, 1, 1], [1, 1]), ([5], [1, 2, 3, 4, 6]), ([2, 2], [2, 2], [1, 3]), ([1], [1], [1], [1]),
+             ([1, 9], [2, 8], [3, 7], [4, 6], [5, 5], [6, 6]), ([3, 4, 9], [1, 2], [2, 6], [5, 7, 8], [1, 1], [4], [2, 3, 3]),
+             tuple([i, i + 8] for i in range(1, 9))]
     for streams in cases:
         store = {("H", F("head_head", "root")): NULL, ("H", F("head_head", "size")): INT(0)}
         pos = [0] * len(streams)
